@@ -939,6 +939,13 @@ def _explain(g: G, other: G, src: int, t: int, matched: list, observed: tuple) -
     dq = collections.deque([sid])
     while dq:
         s = dq.popleft()
+        if not matched and observed[0] == 'acquire' and len(observed) > 2 and observed[2]:
+            # the thread asks for the lock it holds: in the model that is a state without a successor
+            S = other.states[s]
+            frs = S['frames'][t - 1]
+            r = run_idx(frs)
+            if r >= 0 and frs[r]['pc'] == 'start' and LOC[frs[r]['c']] is not None and S['owner'] == t:
+                return seen[s] or 'SelfWait'
         for ei in other.out[s]:
             _, d, act, args = other.edges[ei]
             if args[0] != t:
@@ -1523,7 +1530,7 @@ def _validate_part(args):
     wd, name, part, threads = args
     os.makedirs(wd, exist_ok=True)
     consts = dict(Threads=set(range(1, threads + 1)), Configs=frozenset([frozenset()]), InitLocales={'C'},
-                  Colls={'L1', 'L2', 'U1', 'U2', 'UFB'}, Kinds={'plain', 'gen', 'lazy'}, MaxCalls=0, MaxDepth=4,
+                  Colls={'L1', 'L2', 'U1', 'U2', 'UFB'}, Kinds={'plain', 'gen', 'lazy', 'rec'}, MaxCalls=0, MaxDepth=4,
                   MaxItems=0, Variant='union', Transient=True)
     cfg = tla.cfg_text(consts, spec='TraceSpec', invariants=['TraceInv'], postcondition='MaxPos')
     # trace ids are renumbered 1..K inside the file (they index TLC registers)
@@ -2180,7 +2187,9 @@ def run(chk: core.Check) -> None:
         if a is None:
             dev, bad = ['unmodelled'], []
         else:
-            dev, bad = min(a, key=lambda x: (len(x[0]), len(x[1])))
+            pref = {'rec': 'ReenterHolding', 'lazy': 'LeaveHolding', 'gen': 'YieldHolding'}.get(
+                (rec['case'].get('sweep') or {}).get('kind'))
+            dev, bad = min(a, key=lambda x: (len(x[0]), len(x[1]), 0 if pref in x[0] else 1, x[0]))
         obs = list(rec['obs'])
         if ('lock_leak' in bad) != ('lock_held' in obs) and a is not None:
             obs.append('inconsistent')
